@@ -603,9 +603,6 @@ func (r *runner) runMemo(c caseJSON) {
 			site = 0
 		}
 		calls = append(calls, fmt.Sprintf("(%s, %s)", vh.Nat(site), vh.HxS(text)))
-		if mc.Site == 6 {
-			calls = append(calls, fmt.Sprintf("(%s, %s)", vh.Nat(0), vh.HxS("/"+text)))
-		}
 	}
 	c.Directives = sb.String()
 	waf := corazawaf.NewWAF()
